@@ -22,7 +22,7 @@ RULE = ('Generated call histories (the whole history is one shrinkable value): a
         '(parse, pastify) at every reset and fed the same post-reset inputs. Oracle: after every update the real output equals the '
         'shadow output, and (discrete) sampling_violation_counter is equal after every operation; the first time stamp after a reset '
         'is arbitrary (a gap that would be counted if previous_time survived). A quarter of the histories contain an operation that raises on some data (division by a signal reaching 0, root of a negative sample): '
-        'such an update() is followed by reset(); a quarter of the discrete histories change the sampling period on the live object (set_sampling_period, then reset()) and the shadow is built with the new period. Non-trivial = a reset after >= 2 updates of a formula '
+        'such an update() is followed by reset(); a quarter of the discrete histories change the sampling period on the live object (set_sampling_period, then reset()) and the shadow is built with the new period; a quarter of the remaining plain discrete histories run at a 1 ms period and switch the default unit between s and ms on the live object (spec.unit = ..., then reset(); bare bounds then mean thousands of samples or a few). Non-trivial = a reset after >= 2 updates of a formula '
         'with a stateful operator, followed by >= 2 updates; distinct = distinct (specification, history) digests.')
 
 ASSUMPTIONS = [
@@ -56,6 +56,13 @@ def histories(draw, tier, kind):
     ops = []
     nres = 0
     reconf = kind.startswith('dt') and draw(st.integers(0, 3)) == 0
+    # the default unit is changed on the live object (spec.unit = ..., no parse()): with a sampling period of 1 ms the bare
+    # bounds are whole numbers of samples under the unit s (thousands of samples) and under the unit ms
+    # (bounded since costs rtamt time quadratic in the window: left out of these histories)
+    unitconf = kind == 'dt_on' and not reconf and draw(st.integers(0, 3)) == 0 and not any(x[0] == 'tbin' for x in F.subterms(from_json(c['formula'])))
+    unit = draw(st.sampled_from(['s', 'ms'])) if unitconf else None
+    if unitconf:
+        c['unit'] = unit
     for i in range(nops):
         r = draw(st.integers(0, 9))
         if fault and r == 2 and kind.startswith('dt'):
@@ -67,6 +74,11 @@ def histories(draw, tier, kind):
         elif reconf and r == 3:
             # the sampling period is changed on the live object; it takes effect with the reset() that follows
             ops.append(['period', draw(st.sampled_from([[1, 's'], [500, 'ms'], [250, 'ms'], [1000, 'ms']]))])
+            ops.append(['reset'])
+            nres += 1
+        elif unitconf and r == 3:
+            unit = 'ms' if unit == 's' else 's'
+            ops.append(['unit', unit])
             ops.append(['reset'])
             nres += 1
         elif r == 0 or (i == 0 and r == 1) or (r == 1 and nres < 3 and i > 2):
@@ -90,7 +102,9 @@ def histories(draw, tier, kind):
                 ops.append(['reset'])
                 nres += 1
     c['ops'] = ops
-    if kind.startswith('dt') and draw(st.booleans()):
+    if unitconf:
+        c['sampling'] = [1, 'ms', draw(st.sampled_from([0.1, 0.25]))]
+    elif kind.startswith('dt') and draw(st.booleans()):
         # an explicitly configured tolerance (the period stays 1 s so that bounds written in samples stay valid)
         c['sampling'] = [1, 's', draw(st.sampled_from([0.0, 0.05, 0.2, 0.25, 0.5, 1.0]))]
     return c
@@ -132,10 +146,13 @@ def check(case):
         return DISCARD('no-variable', labels)
     if kind == 'dt_on_past' and F.horizon(f) is None:
         return DISCARD('unbounded', labels)
-    cfg = {'sampling': case.get('sampling'), 'period_s': Fraction(1)}
+    cfg = {'sampling': case.get('sampling'), 'period_s': Fraction(1), 'unit': case.get('unit')}
+    if case.get('unit'):
+        cfg['period_s'] = Fraction(1, 1000)
+    unit_s = {'s': Fraction(1), 'ms': Fraction(1, 1000), None: Fraction(1)}
 
     def fresh():
-        spec = build_modular(case)
+        spec = build_modular(dict(case, unit=cfg['unit']))
         if cfg['sampling']:
             spec.set_sampling_period(*cfg['sampling'])
         return spec
@@ -167,6 +184,13 @@ def check(case):
             reconfigured += 1
             log.append('period %s' % (op[1],))
             continue
+        if op[0] == 'unit':
+            cfg['unit'] = op[1]
+            real.spec.unit = op[1]
+            dirty = True      # takes effect with the next reset()
+            reconfigured += 1
+            log.append('unit %s' % op[1])
+            continue
         if op[0] == 'reset':
             try:
                 real.spec.reset()
@@ -191,7 +215,7 @@ def check(case):
             if kind.startswith('dt'):
                 # the first stamp after a reset / at the start is arbitrary: jump by 10 periods
                 t = t + Fraction(op[1] if updates_since_reset > 0 else 160, 16) * cfg['period_s']
-            tf = float(t)
+            tf = float(t / unit_s[cfg['unit']])       # time stamps are expressed in the default unit
             s_exc = None
             try:
                 s_out = shadow.update(op, tf)
@@ -237,7 +261,7 @@ def check(case):
     if failed_updates:
         labels.append('failed-update-then-reset')
     if reconfigured:
-        labels.append('period-changed-then-reset')
+        labels.append('unit-changed-then-reset' if case.get('unit') else 'period-changed-then-reset')
     return PASS(stateful and good_resets >= 1, labels)
 
 
